@@ -52,13 +52,16 @@ struct Ctx
             // the strings outlive the call (literals in real code)
             static std::mutex keepMx;
             static std::vector<std::unique_ptr<std::string>> keep;
-            std::lock_guard<std::mutex> lk(keepMx);
-            keep.emplace_back(new std::string(file));
-            const char *f = keep.back()->c_str();
-            keep.emplace_back(new std::string(func));
-            const char *fu = keep.back()->c_str();
-            keep.emplace_back(new std::string(cat));
-            const char *c = keep.back()->c_str();
+            const char *f, *fu, *c;
+            {
+                std::lock_guard<std::mutex> lk(keepMx);
+                keep.emplace_back(new std::string(file));
+                f = keep.back()->c_str();
+                keep.emplace_back(new std::string(func));
+                fu = keep.back()->c_str();
+                keep.emplace_back(new std::string(cat));
+                c = keep.back()->c_str();
+            }
             QMessageLogContext ctx(f, line, fu, c);
             fn(ctx, type, text);
             return;
@@ -92,6 +95,14 @@ void runScenario(const QJsonObject &scn)
 
     Probes probes;
     probes.sinkDelayUs = scn["sinkDelayUs"].toInt(0);
+    probes.stallMs = scn["stallMs"].toInt(0);
+    probes.relog = scn["relog"].toInt(0);
+    {
+        std::vector<std::pair<std::string, std::string>> gs;
+        for (const auto &g : scn["gates"].toArray())
+            gs.emplace_back(g.toArray().at(0).toString().toStdString(), g.toArray().at(1).toString().toStdString());
+        g_gates.load(gs);
+    }
 
     std::unique_ptr<Logger> logger;
     std::unique_ptr<OwnThreadHandler<Pipeline>> bare;
@@ -250,7 +261,10 @@ void runScenario(const QJsonObject &scn)
     }
     QJsonObject o;
     o["e"] = "Finished";
+    o["gates_passed"] = g_gates.passed;
+    o["gates_abandoned"] = g_gates.abandoned;
     emitLine(o);
+    g_gates.load({});
     t_tag.clear();
 }
 
